@@ -56,6 +56,12 @@ impl StyleSheetOutput {
         let output_start_pos = self.s.len();
         self.s += s;
         self.utf16_len += str::encode_utf16(&self.s[output_start_pos..]).count() as u32;
+        #[cfg(feature = "verif-hooks")]
+        crate::verif::emit(crate::verif::Event::CssAppend {
+            kind: "raw",
+            utf16_len: self.utf16_len,
+            out: &self.s,
+        });
     }
 
     pub(crate) fn append_token(&mut self, token: StepToken, src: Option<Token>) {
@@ -83,6 +89,12 @@ impl StyleSheetOutput {
             name,
         );
         self.utf16_len += str::encode_utf16(&self.s[output_start_pos..]).count() as u32;
+        #[cfg(feature = "verif-hooks")]
+        crate::verif::emit(crate::verif::Event::CssAppend {
+            kind: "token",
+            utf16_len: self.utf16_len,
+            out: &self.s,
+        });
     }
 
     pub(crate) fn append_token_space_preserved(&mut self, token: StepToken, src: Option<Token>) {
@@ -90,6 +102,12 @@ impl StyleSheetOutput {
             self.prev_ser_type = token.serialization_type();
             self.s.push(' ');
             self.utf16_len += 1;
+            #[cfg(feature = "verif-hooks")]
+            crate::verif::emit(crate::verif::Event::CssAppend {
+                kind: "space",
+                utf16_len: self.utf16_len,
+                out: &self.s,
+            });
         } else {
             self.append_token(token, src);
         }
